@@ -38,6 +38,7 @@ type Store struct {
 	lastOps []string // ops of the last write tx: "Put shelf"
 	Writes  int
 	Faults  int
+	active  *writeTx // the decorated write transaction whose closure is running (bbolt: at most one)
 }
 
 // New wraps inner.
@@ -45,6 +46,19 @@ func New(inner stoabs.KVStore) *Store { return &Store{KVStore: inner} }
 
 // Arm sets the plan for subsequent writes (nil disarms).
 func (s *Store) Arm(p *Plan) { s.mu.Lock(); s.plan = p; s.mu.Unlock() }
+
+// ArmActive attaches p to the write transaction whose closure is running right now (and to no other): meant to be called from inside that
+// closure (e.g. from a hook point), so that the fault hits exactly that transaction. Reports whether there was one. FailOp counts from the
+// start of the transaction.
+func (s *Store) ArmActive(p *Plan) bool {
+	s.mu.Lock()
+	defer s.mu.Unlock()
+	if s.active == nil {
+		return false
+	}
+	s.active.plan = p
+	return true
+}
 
 // LastOps returns the mutating ops of the most recent write transaction.
 func (s *Store) LastOps() []string {
@@ -60,9 +74,14 @@ func (s *Store) Write(ctx context.Context, fn func(stoabs.WriteTx) error, opts .
 		s.Writes++
 		s.mu.Unlock()
 		wtx := &writeTx{WriteTx: tx, store: s, plan: plan}
+		s.mu.Lock()
+		s.active = wtx
+		s.mu.Unlock()
 		err := fn(wtx)
 		s.mu.Lock()
 		s.lastOps = wtx.ops
+		s.active = nil
+		plan = wtx.plan // unchanged unless ArmActive was used
 		s.mu.Unlock()
 		if err != nil {
 			return err
